@@ -87,7 +87,7 @@ pub fn explorer_plan(prop: &str, thorough: bool) -> Option<Plan> {
         "C04" => {
             p.checks = Checks { routing: true, accuracy: true, ..Default::default() };
             // magnitudes matter: a margin that is tiny but not zero must still decide the side
-            p.values = vec![Values::Uniform, Values::Uniform, Values::Grid, Values::Scaled(-9), Values::Scaled(-5), Values::Scaled(6), Values::Mixed(true), Values::Mixed(true)];
+            p.values = vec![Values::Uniform, Values::Uniform, Values::Grid, Values::Scaled(-9), Values::Scaled(-5), Values::Scaled(6), Values::Mixed(true), Values::Mixed(true), Values::Clustered, Values::Clustered];
             p.dims = vec![2, 3, 4, 5, 7, 8, 15, 16, 17, 31, 32, 33, 63, 64, 65, 100, 128, 130];
             p.split_after = vec![Some(1), Some(2), Some(3), Some(7), None];
             p.rounds = (3, 6);
@@ -98,7 +98,7 @@ pub fn explorer_plan(prop: &str, thorough: bool) -> Option<Plan> {
                 cases: (6000, 90000),
                 required: &["routing_margins_checked", "routing_margins_vs_definition", "routing_self_lookups", "routing_items_with_clean_tree"],
                 custom_gen: None,
-                rule: "case = explorer history with >=3 rounds and small buckets; after every build each (split, item below it) pair has its margin recomputed with arroy's own margin function on the stored bytes (in the reader's and in the writer's argument order) and, independently, from the definition in f64 on the raw bytes (when that leaves no doubt about the sign all three must agree with the side the item lies on); a quarter of the cases mix magnitudes from 1e-9 to 1e19 per vector; self-lookups with search_k=1 for items that have a clean tree; non-trivial+distinct = distinct forest shapes with splits",
+                rule: "case = explorer history with >=3 rounds and small buckets; after every build each (split, item below it) pair has its margin recomputed with arroy's own margin function on the stored bytes (in the reader's and in the writer's argument order) and, independently, from the definition in f64 on the raw bytes (when that leaves no doubt about the sign all three must agree with the side the item lies on); a fifth of the cases mix magnitudes from 1e-9 to 1e19 per vector, another fifth are a tight cluster far from the origin plus outliers (every split attempt unbalanced); self-lookups with search_k=1 for items that have a clean tree; non-trivial+distinct = distinct forest shapes with splits",
             }
         }
         "C05" => {
@@ -110,6 +110,9 @@ pub fn explorer_plan(prop: &str, thorough: bool) -> Option<Plan> {
             p.p_variant_overwrite = 0.12;
             // the item store does not depend on the forest: also forests of zero trees (explicit n_trees(0))
             p.n_trees.push(Some(0));
+            // a metric change re-encodes every stored leaf: what is read back afterwards is the new metric's
+            // encoding of what the old one had stored
+            p.change_metric = true;
             p.p_append = 0.08;
             p.p_clear = 0.02;
             p.p_midcommit = 0.05;
@@ -122,7 +125,7 @@ pub fn explorer_plan(prop: &str, thorough: bool) -> Option<Plan> {
                 cases: (10000, 150000),
                 required: &["store_probes", "store_full_iters", "store_reader_checks", "overwrites", "del_present", "del_absent", "aborts"],
                 custom_gen: None,
-                rule: "case = explorer history over 1-3 indexes with all-bit-pattern values; after every operation (in the write txn) and after every commit/abort (fresh read txn) contains_item/item_vector/iter/is_empty and the reader's id set are compared bit-for-bit with the shadow model; non-trivial+distinct = distinct (operation kind, changed/unchanged effect, built?, dirty?, metric, log2 item count) situations in which the monitor ran, plus distinct forest shapes with splits of the interleaved builds",
+                rule: "case = explorer history over 1-3 indexes with all-bit-pattern values; after every operation (in the write txn) and after every commit/abort (fresh read txn) contains_item/item_vector/iter/is_empty and the reader's id set are compared bit-for-bit with the shadow model (also across metric changes, which re-encode every leaf); non-trivial+distinct = distinct (operation kind, changed/unchanged effect, built?, dirty?, metric, log2 item count) situations in which the monitor ran, plus distinct forest shapes with splits of the interleaved builds",
             }
         }
         "C06" => {
